@@ -398,15 +398,20 @@ def parse_events(text):
     return evs
 
 
-WATCHDOG_S = 20      # wall-clock seconds for ONE case (a normal case takes ~1 ms)
+WATCHDOG_S = 5       # wall-clock seconds for ONE case (a normal case takes ~1 ms)
 
 
-class _Spin(BaseException):
+class _Spin(KeyboardInterrupt):
     """raised by the wall-clock watchdog: code under test loops without ever yielding to the
-    event loop (the virtual loop cannot see that)"""
+    event loop (the virtual loop cannot see that).  A KeyboardInterrupt subclass because asyncio
+    lets only those escape from a task step."""
+
+
+_TRIPPED = [False]
 
 
 def _watchdog(signum, frame):
+    _TRIPPED[0] = True
     raise _Spin()
 
 
@@ -416,6 +421,7 @@ def run_events(repo, cfg, events):
     recorded as observations"""
     use_alarm = threading.current_thread() is threading.main_thread()
     old = None
+    _TRIPPED[0] = False
     if use_alarm:
         old = signal.signal(signal.SIGALRM, _watchdog)
         signal.setitimer(signal.ITIMER_REAL, WATCHDOG_S)
@@ -431,6 +437,8 @@ def run_events(repo, cfg, events):
                 except (vloop.Deadlock, vloop.Livelock) as e:
                     stall = (i, type(e).__name__)
                     break
+                if _TRIPPED[0]:
+                    raise _Spin()
             if use_alarm:
                 signal.setitimer(signal.ITIMER_REAL, 0)
             return obs, summary(w, stall)
